@@ -426,7 +426,7 @@ func TestRange(t *testing.T) {
 		Check:      checkRange,
 		NonTrivial: func(c rangeCase) bool { return interesting(last) },
 		Classes:    func(c rangeCase) []string { return classesOf(c, last) },
-		Quick:      7000, Thorough: 300000,
+		Quick:      30000, Thorough: 250000,
 	})
 }
 
@@ -484,6 +484,6 @@ func TestControlAll(t *testing.T) {
 			}
 			return out
 		},
-		Quick: 700, Thorough: 25000,
+		Quick: 3000, Thorough: 20000,
 	})
 }
